@@ -404,6 +404,11 @@ def contains(I, run, item: Value, cont: Value, node) -> bool:
         return _memo_bool(I, run, ("in", item.key(), cont.key()), node, f"{item!r} in {I.describe(run, cont)}")
     if isinstance(cont, Tup):
         return _contains_elts(I, run, item, list(cont.items), node, cont=cont)
+    if isinstance(cont, App) and cont.op == "range" and len(cont.args) == 3 and all(isinstance(x, C) for x in cont.args) and cont.args[2].v == 1:
+        # x in range(lo, hi)  ==  lo <= x < hi for an integer x (decided on the path's facts, forking where they leave it open)
+        if isinstance(item, C) and not isinstance(item.v, int):
+            return False
+        return bool(decide_cmp(I, run, ">=", item, cont.args[0], node)) and bool(decide_cmp(I, run, "<", item, cont.args[1], node))
     if isinstance(cont, C) and isinstance(cont.v, (str, bytes)):
         if isinstance(item, C):
             try:
@@ -1698,7 +1703,8 @@ def _b_range(I, run, args, kwargs, node):
         r = range(*[v.v for v in vs])
         if len(r) <= 256:
             return Tup(tuple(C(i) for i in r))
-        raise CutoffSig(f"range of {len(r)} at {I.locof(node)}")
+        # a long range is kept as a term: membership is an interval test (contains), only iterating it is refused
+        return App("range", (C(r.start), C(r.stop), C(r.step)))
     if any(isinstance(v, C) and not isinstance(v.v, int) for v in vs):
         I.raise_builtin(run, "TypeError", node, C("range() argument is not an integer"))
     return App("range", tuple(vs))
